@@ -287,7 +287,7 @@ def pdb_read_models(ctx, lines_, root, assume_=None):
             if isinstance(b, _ast.ClassDef):
                 classes[n.name + "." + b.name] = b
     rm = ctx.py.func(PDB, "PDBTrajectoryFile._read_models")
-    rec = {"atoms": [], "chains": 0}
+    rec = {"atoms": [], "chains": 0, "residues": []}
 
     def mktop(ev, call):
         top = Obj(tag="topology", bonds=[], _lenient=True)
@@ -297,6 +297,7 @@ def pdb_read_models(ctx, lines_, root, assume_=None):
             return Obj(tag="chain", chain_id=chain_id, index=rec["chains"] - 1)
 
         def add_residue(name, chain, resSeq=None, segment_id="", **kw):
+            rec["residues"].append((name, resSeq, segment_id))
             return Obj(tag="residue", name=name, chain=chain, resSeq=resSeq, segment_id=segment_id)
 
         def add_atom(name, element, residue, serial=None, **kw):
@@ -317,7 +318,7 @@ def pdb_read_models(ctx, lines_, root, assume_=None):
                      "sys": Obj(stdout=None), "warnings": Obj(warn=lambda *a_, **k_: None),
                      "PDBTrajectoryFile": Obj(_residueNameReplacements={}, _atomNameReplacements={}, _guess_element=lambda *a_: None)}
     ts.run_fn(rm, self=me)
-    return dict(positions=me._positions, lengths=me._unitcell_lengths, angles=me._unitcell_angles, atoms=rec["atoms"])
+    return dict(positions=me._positions, lengths=me._unitcell_lengths, angles=me._unitcell_angles, atoms=rec["atoms"], residues=rec["residues"])
 
 
 def recorder_topology():
